@@ -296,6 +296,8 @@ PRELUDE = r'''# ---- C10 harness (constant part of every plan) ----
       :fiber
       (when (not= 0 (band mask 32))
         (bounded (fn [] [(fiber/status x) (fiber/maxstack x) (fiber/getenv x) (fiber/can-resume? x) (fiber/last-value x)]))
+        # frames, slots and the locals named by the symbol maps of a loaded fiber
+        (bounded (fn [] (string/format "%q" (debug/stack x))))
         (var k 0)
         (while (and (< k 6) (= :dead ((bounded (fn [] (if (fiber/can-resume? x) true (error "no")))) 0)))
           (def [st r] (bounded (fn [] (resume x (in argpool (% (+ seed k wi) (length argpool)))))))
